@@ -459,7 +459,14 @@ func pushFrame(cmd int, body []byte) specFrame { return specFrame{typ: 3, cmd: c
 
 // kernelState reports the kernel's TCP state of the peer-side socket of this connection ("01" established, "08" close-wait, …; "" when
 // the socket is gone). It lets a scenario see that the client released its socket although the scripted peer is not reading.
-func (pc *peerConn) kernelState() string {
+// clientKernelState: the state of the CLIENT's end of this connection in the kernel's table (both ends are on this host): "01" while the
+// client process still holds the socket open, "04"/"05"/"06"/… or "" once it closed it — also when the FIN cannot reach a peer whose
+// receive window is full
+func (pc *peerConn) clientKernelState() string { return pc.kernelStateOf(true) }
+
+func (pc *peerConn) kernelState() string { return pc.kernelStateOf(false) }
+
+func (pc *peerConn) kernelStateOf(clientSide bool) string {
 	var la, ra net.Addr
 	if pc.ws != nil {
 		la, ra = pc.ws.UnderlyingConn().LocalAddr(), pc.ws.UnderlyingConn().RemoteAddr()
@@ -481,6 +488,9 @@ func (pc *peerConn) kernelState() string {
 	data, err := os.ReadFile("/proc/net/tcp")
 	if err != nil {
 		return "?"
+	}
+	if clientSide {
+		l, r = r, l
 	}
 	for _, line := range strings.Split(string(data), "\n") {
 		f := strings.Fields(line)
